@@ -372,6 +372,45 @@ impl Property for C05 {
             Ev::PollCtx,
             Ev::DropOp { sel: 0 },
         ];
+        // operations of one kind outstanding on both sides of the 16-bit wrap of the identifier
+        // counter, acknowledged oldest first / newest first / alternately
+        let mut across_wrap = vec![];
+        let mut k = 0usize;
+        for off in 65_529u32..=65_535 {
+            for pattern in 0u8..5 {
+                for order in 0u8..3 {
+                    k += 1;
+                    if k % workers != worker {
+                        continue;
+                    }
+                    let mut events = vec![];
+                    for i in 0..8u8 {
+                        let kind = match (pattern, i % 2) {
+                            (0, _) => OpKind::Sub(0),
+                            (1, _) => OpKind::Unsub(0),
+                            (2, 0) => OpKind::Sub(1),
+                            (2, _) => OpKind::Pub1,
+                            (3, 0) => OpKind::Sub(0),
+                            (3, _) => OpKind::Unsub(1),
+                            (_, 0) => OpKind::Pub2,
+                            _ => OpKind::Unsub(0),
+                        };
+                        events.push(Ev::Start { h: 0, kind, settle: false, solo: false });
+                    }
+                    events.push(Ev::Settle);
+                    for j in 0..16u16 {
+                        let sel = match order {
+                            0 => 0,
+                            1 => 65535,
+                            _ => if j % 2 == 0 { 65535 } else { 0 },
+                        };
+                        events.push(Ev::In(Inbound::Ack { sel, deco: d }));
+                        events.push(Ev::Settle);
+                    }
+                    across_wrap.push(Scenario { receive_max: None, max_packet_size: None, id_offset: off, prologue: 0, events });
+                }
+            }
+        }
         // subscribes outstanding while messages arrive for subscriptions whose stream is gone
         let with_streams = vec![
             Ev::Start { h: 0, kind: OpKind::Pub1, settle: false, solo: false },
@@ -411,7 +450,8 @@ impl Property for C05 {
                     }
                     events.push(Ev::Settle);
                     Scenario { receive_max: None, max_packet_size: None, id_offset: 0, prologue: 0, events }
-                })),
+                }))
+                .chain(across_wrap),
         )
     }
 
